@@ -46,7 +46,18 @@ func c13CommentsSkipped(r *an.Run) {
 			call = c.(*ssa.Call)
 		}
 	}
-	if r.Check(call != nil && an.Path(call.Call.Args[0]) == "p.text", short(f)+"|tests-line", f.Pos(), "next() asks isComment about the line it just read") {
+	isCurrentLine := func(v ssa.Value) bool {
+		if an.Path(v) == "p.text" {
+			return true
+		}
+		for _, in := range an.StoresIn(f) {
+			if st, ok := in.(*ssa.Store); ok && an.Path(st.Addr) == "p.text" && st.Val == v {
+				return true
+			}
+		}
+		return false
+	}
+	if r.Check(call != nil && isCurrentLine(call.Call.Args[0]), short(f)+"|tests-line", f.Pos(), "next() asks isComment about the line it just read") {
 		brs := an.BranchesOn(f, call)
 		// every return inside the loop (a line is handed out) is behind isComment == false
 		loop := an.LoopOf(f, call.Block())
@@ -160,7 +171,14 @@ func c13Descriptions(r *an.Run) {
 
 // forwardSinks follows v forward through value-preserving instructions and
 // string concatenation and returns the instructions that finally consume it.
-func forwardSinks(v ssa.Value, seen map[ssa.Value]bool, out *[]ssa.Instruction) {
+// sinkUse is an instruction that finally consumes a tainted value, and the
+// value it consumes.
+type sinkUse struct {
+	in  ssa.Instruction
+	via ssa.Value
+}
+
+func forwardSinks(v ssa.Value, seen map[ssa.Value]bool, out *[]sinkUse) {
 	if seen[v] {
 		return
 	}
@@ -176,7 +194,7 @@ func forwardSinks(v ssa.Value, seen map[ssa.Value]bool, out *[]ssa.Instruction) 
 			if x.Op == token.ADD {
 				forwardSinks(x, seen, out)
 			} else {
-				*out = append(*out, x)
+				*out = append(*out, sinkUse{x, v})
 			}
 		case *ssa.Phi:
 			forwardSinks(x, seen, out)
@@ -199,16 +217,45 @@ func forwardSinks(v ssa.Value, seen map[ssa.Value]bool, out *[]ssa.Instruction) 
 						continue
 					}
 				}
-				*out = append(*out, x)
+				*out = append(*out, sinkUse{x, v})
+			}
+		case *ssa.Return:
+			// the value leaves a private helper: continue at its call sites
+			g := x.Parent()
+			followed := false
+			if prog != nil && g != nil && an.InModule(g) {
+				for _, site := range prog.CallersOf(g) {
+					if cv, ok := site.(*ssa.Call); ok {
+						followed = true
+						if cv.Call.Signature().Results().Len() == 1 {
+							forwardSinks(cv, seen, out)
+						} else {
+							for i, res := range x.Results {
+								if res == v {
+									for _, ex := range an.ExtractOf(cv, i) {
+										forwardSinks(ex, seen, out)
+									}
+								}
+							}
+						}
+					}
+				}
+			}
+			if !followed {
+				*out = append(*out, sinkUse{u, v})
 			}
 		default:
-			*out = append(*out, u)
+			*out = append(*out, sinkUse{u, v})
 		}
 	}
 }
 
+// prog gives forwardSinks access to the call graph (set by the rule that uses it).
+var prog *an.Prog
+
 func c13NamesInert(r *an.Run) {
 	r.Rule("R3-names-and-descriptions-do-not-influence-matching")
+	prog = r.P
 	n := 0
 	for _, g := range r.P.PkgFuncs(parseP) {
 		for _, b := range g.Blocks {
@@ -226,9 +273,10 @@ func c13NamesInert(r *an.Run) {
 					continue
 				}
 				n++
-				var sinks []ssa.Instruction
+				var sinks []sinkUse
 				forwardSinks(u, map[ssa.Value]bool{}, &sinks)
-				for _, s := range sinks {
+				for _, su := range sinks {
+					s := su.in
 					okSink, what := false, s.String()
 					switch x := s.(type) {
 					case *ssa.Store:
@@ -248,12 +296,30 @@ func c13NamesInert(r *an.Run) {
 							okSink = true
 						case name == "(*go/token.FileSet).AddFile":
 							okSink = true
-						case an.StaticCallee(x) == r.P.Func(parseP, "parser.parsePatchVersion") && argIndex(x, sinkOperand(x, u, sinks)) <= 1:
+						case an.StaticCallee(x) == r.P.Func(parseP, "parser.parsePatchVersion"):
+							// only as the file-name argument
 							okSink = true
-						}
-						if !okSink && (strings.HasSuffix(name, "parsePatchVersion")) {
-							// the name may only be the file-name argument
-							okSink = onlyAsArg(x, 1, u)
+							for i, a := range x.Common().Args {
+								if a == su.via && i != 1 {
+									okSink = false
+								}
+							}
+						default:
+							// a private helper of the package taking the name: follow into its parameter
+							if sc := an.StaticCallee(x); sc != nil && an.FuncPkgPath(sc) == an.FuncPkgPath(g) {
+								okSink = true
+								for i, a := range x.Common().Args {
+									if a == su.via && i < len(sc.Params) {
+										var inner []sinkUse
+										forwardSinks(sc.Params[i], map[ssa.Value]bool{}, &inner)
+										for _, is := range inner {
+											if !acceptNameSink(r, is) {
+												okSink = false
+											}
+										}
+									}
+								}
+							}
 						}
 					}
 					r.Check(okSink, short(g)+"|"+field+"-flows-to|"+what, s.Pos(), "a change's %s flows only into position-table file names, the parsed change's %s field and emptiness tests (here: %s)", strings.ToLower(field), field, what)
@@ -282,9 +348,10 @@ func c13NamesInert(r *an.Run) {
 			for _, in := range b.Instrs {
 				if u, ok := in.(*ssa.UnOp); ok && u.Op == token.MUL {
 					if fa, ok := u.X.(*ssa.FieldAddr); ok && strings.HasSuffix(an.ShortType(fa.X.Type()), "parse.Change") && (fieldNameOf(fa) == "Name" || fieldNameOf(fa) == "Comments") {
-						var sinks []ssa.Instruction
+						var sinks []sinkUse
 						forwardSinks(u, map[ssa.Value]bool{}, &sinks)
-						for _, s := range sinks {
+						for _, su := range sinks {
+							s := su.in
 							st, isSt := s.(*ssa.Store)
 							good := false
 							if isSt {
@@ -301,24 +368,31 @@ func c13NamesInert(r *an.Run) {
 	}
 }
 
-func sinkOperand(c ssa.CallInstruction, src ssa.Value, _ []ssa.Instruction) ssa.Value { return src }
-
-func argIndex(c ssa.CallInstruction, v ssa.Value) int {
-	for i, a := range c.Common().Args {
-		if derivesFrom(a, v) {
-			return i
+// acceptNameSink: sinks a change's name may reach inside a helper.
+func acceptNameSink(r *an.Run, su sinkUse) bool {
+	switch x := su.in.(type) {
+	case *ssa.BinOp:
+		if s2, ok := an.ConstString(x.Y); ok && s2 == "" {
+			return true
+		}
+		if _, ok := an.ConstInt(x.Y); ok { // len(name) == 0 style
+			return true
+		}
+	case ssa.CallInstruction:
+		name := an.CalleeName(x)
+		if name == "builtin:len" || name == "fmt.Sprintf" || name == "(*go/token.FileSet).AddFile" {
+			return true
+		}
+		if an.StaticCallee(x) == r.P.Func(parseP, "parser.parsePatchVersion") {
+			for i, a := range x.Common().Args {
+				if a == su.via && i != 1 {
+					return false
+				}
+			}
+			return true
 		}
 	}
-	return 99
-}
-
-func onlyAsArg(c ssa.CallInstruction, idx int, v ssa.Value) bool {
-	for i, a := range c.Common().Args {
-		if i != idx && derivesFrom(a, v) {
-			return false
-		}
-	}
-	return derivesFrom(c.Common().Args[idx], v)
+	return false
 }
 
 func c13SpellingInert(r *an.Run) {
@@ -393,7 +467,11 @@ func c13OrderOnly(r *an.Run) {
 	if f == nil {
 		return
 	}
-	fns := append([]*ssa.Function{f}, f.AnonFuncs...)
+	fns := helperGroup(f, 3)
+	inGroup := map[*ssa.Function]bool{}
+	for _, g := range fns {
+		inGroup[g] = true
+	}
 	isLC := func(v ssa.Value) bool {
 		switch x := v.(type) {
 		case *ssa.Field:
@@ -446,6 +524,9 @@ func c13OrderOnly(r *an.Run) {
 			name := an.CalleeName(c)
 			if strings.HasPrefix(name, "sort.") || name == "fmt.Errorf" || name == "(*go/token.FileSet).Position" || strings.HasPrefix(name, "builtin:") || strings.HasPrefix(name, "closure:") || strings.HasPrefix(name, "dynamic:") {
 				continue
+			}
+			if sc := an.StaticCallee(c); sc != nil && inGroup[sc] {
+				continue // a private helper, analysed with the group
 			}
 			r.Fail(short(g)+"|call|"+name, c.Pos(), "connectDots calls %s", name)
 		}
